@@ -30,7 +30,7 @@ CHECKS = {
                   "quantize_weight results plus metamorphic locality checks (rescale / replace / permute other rows)",
         level="exploration", ref="4/C03",
         text="The real optimizers, absmax_scale and quantize_weight are called on tensors whose rows/groups span many "
-             "decades; an independent float64 oracle checks non-saturation, full-range use, dtype and count of the scales, "
+             "decades (contiguous, transposed-storage, channels_last and windowed sources); an independent float64 oracle checks non-saturation, full-range use, dtype and count of the scales, "
              "and 3-6 metamorphic siblings per tensor check byte-identical results for the untouched row/group.",
         note="Trusted: float64 arithmetic; group order assumption for grouped scales (axis-index major); 2-ulp scale "
              "rounding tolerance. Known finding C03-F2 (float8 weight scales) is matched by mechanism."),
@@ -86,7 +86,9 @@ CHECKS = {
              "activations, are pushed through F.linear, mm/matmul/bmm, the custom "
              "operator and every CPU route function directly; 'exact' sets (small integer codes, power-of-two scales, "
              "dyadic bias) must be bit-identical to the float64 product, 'realistic' sets (row scales over decades, "
-             "saturating codes) within the accumulation bound; output dtype/shape/finiteness are checked.",
+             "saturating codes) within the accumulation bound; output dtype/shape/finiteness are checked; part of the "
+             "weights are then overwritten in place by another weight and the next product is judged against what the "
+             "weight holds now.",
         note="Workers write the case to an intent log before running it; a worker killed by a signal is a violation "
              "witness (known finding C07-F33 is the platform's int8pack kernel, probed in sacrificial cases; the former "
              "finding C07-F34, torch._int_mm on operands with ambiguous strides, was repaired in /repo). CUDA/MPS routes "
@@ -124,7 +126,8 @@ CHECKS = {
              "with or without streamlining) are saved with pickle / weights_only / safetensors, loaded into same-quantized, "
              "default-quantized and requantize() targets for 1-3 cycles; every state_dict value must be a plain tensor or "
              "string, every serializer must return an equal dict, and the reloaded model must be bit-identical in codes, "
-             "scales, zero-points, qtypes, activation scales, outputs and second state_dict.",
+             "scales, zero-points, qtypes, activation scales, outputs and second state_dict; a load must leave the given "
+             "dict unchanged and a second load of the same dict must give the same model.",
         note="Known findings C10-F17 (LayerNorm with activations through requantize/default target) and C10-F18 (group "
              "size lost for unfrozen int2/int4 on those targets) are matched by mechanism."),
     "C15": dict(
@@ -147,7 +150,7 @@ CHECKS = {
                   "single-batch calibration",
         level="exploration", ref="4/C12",
         text="Batch sequences with magnitudes over six decades run through the real Calibration context (1-3 successive "
-             "contexts, several momenta, streamlining on/off) on Linear/Conv2d/LayerNorm models alone and chained; per "
+             "contexts from new objects or one reused object, several momenta, streamlining on/off) on Linear/Conv2d/LayerNorm models alone and chained; per "
              "module and per batch the recorder logs the input absmax (or the adopted scale of a quantized input), the raw "
              "output absmax and the scales after the batch; the checker replays first-batch initialisation and "
              "s = m*s + (1-m)*absmax/qmax in float64 and compares within a dtype-derived tolerance.",
